@@ -244,7 +244,13 @@ extern mpz_ptr *vec_mpz_pool_data[VEC_MPZ_POOL]; extern __mpz_struct *vec_mpz_po
 static inline void vec_mpz__ctor_0(vec_mpz *v)
 { __CPROVER_assert(vec_mpz_pool_n < VEC_MPZ_POOL, "model limit: pool of local integer vectors");
   v->data = vec_mpz_pool_data[vec_mpz_pool_n]; v->cells = vec_mpz_pool_cells[vec_mpz_pool_n]; v->size = 0; v->cap = vec_mpz_pool_cap; vec_mpz_pool_n = vec_mpz_pool_n + 1; }
+#ifdef VEC_MPZ_PUSH_COPIES
+/* the pushed object's VALUE becomes the value of the slot's own cell (the pointer itself is dropped: faithful as long
+ * as the pushed pointer is not used to modify the object afterwards) */
+static inline void vec_mpz__push_back(vec_mpz *v, mpz_ptr p) { __CPROVER_assert(v->size < v->cap, "model limit: vector capacity"); v->cells[v->size] = *p; v->size = v->size + 1; }
+#else
 static inline void vec_mpz__push_back(vec_mpz *v, mpz_ptr p) { (void)p; __CPROVER_assert(v->size < v->cap, "model limit: vector capacity"); v->size = v->size + 1; }
+#endif
 static inline void vec_mpz__clear(vec_mpz *v) { v->size = 0; }
 #elif defined(VEC_DECL)
 VEC_DECL(vec_mpz, mpz_ptr)   /* std::vector<mpz_ptr> when stl.h is in use */
